@@ -175,6 +175,19 @@ Fixpoint xshaped_run (ops : list xop) (s : state) : Prop :=
   | o :: r => xop_ok s o /\ match xexec P o s with (s1, inl _) => xshaped_run r s1 | (_, inr _) => True end
   end.
 
+Definition xop_ok_b (s : state) (o : xop) : bool := match o with XBase b => op_ok_b s b | _ => true end.
+Fixpoint xshaped_run_b (ops : list xop) (s : state) : bool :=
+  match ops with
+  | [] => true
+  | o :: r => xop_ok_b s o && match xexec P o s with (s1, inl _) => xshaped_run_b r s1 | (_, inr _) => true end
+  end.
+Lemma xshaped_run_b_sound : forall ops s, xshaped_run_b ops s = true -> xshaped_run ops s.
+Proof.
+  induction ops as [|o r IH]; intros s H; simpl in *; auto. apply andb_true_iff in H. destruct H as [H1 H2]. split.
+  - destruct o; simpl in *; auto. apply op_ok_b_sound. exact H1.
+  - destruct (xexec P o s) as [s1 [v|e]]; auto.
+Qed.
+
 Theorem uniq_xinvariant : forall ops s s', forallb (fun o => negb (is_reassign o)) ops = true -> G s -> U s ->
   xshaped_run ops s -> xrun_succ P ops s = Some s' -> U s'.
 Proof.
